@@ -73,6 +73,15 @@ Section Code.
     /\ (forall x, In x (dir_list st') <-> In x (dir_list st) /\ x <> id).
   Proof. intros. apply store_delete; auto. Qed.
 
+  (* Delete(ids...): whatever happens every ID is either untouched or gone; if the call reports success every ID of the
+     batch is gone and no other; the listing is exactly the IDs that can still be read *)
+  Lemma c_delete_all : forall k ids st,
+    let r := dir_delete_all st ids in
+    (forall id, c_get k (fst r) id = c_get k st id \/ c_get k (fst r) id = GNoFile)
+    /\ (snd r = true -> forall id, c_get k (fst r) id = if existsb (N.eqb id) ids then GNoFile else c_get k st id)
+    /\ (forall id, In id (dir_list (fst r)) <-> dir_get (fst r) id <> None).
+  Proof. intros. apply store_delete_all. Qed.
+
   Lemma c_history : forall k ops, Forall c_sop_ok ops ->
     let st := fold_left (c_apply k) ops [] in
     let r := fold_left sop_ref ops (fun _ => None) in
@@ -138,7 +147,8 @@ Qed.
 
 (* ---------- the lock table of WriteControlledStore with the protocol the translator found in the source ---------- *)
 Definition lock_table_structure : bool :=
-  release_deletes_entry_and_pools && acquire_is_one_critical_section && ops_unlock_before_release.
+  release_deletes_entry_and_pools && acquire_is_one_critical_section && ops_unlock_before_release
+  && batch_delete_is_per_id_loop.
 
 Lemma lock_table_structure_ok : lock_table_structure = true.
 Proof. vm_compute. reflexivity. Qed.
@@ -146,7 +156,12 @@ Proof. vm_compute. reflexivity. Qed.
 (* releaseSyncRef decrements inside the critical section and acquireSyncRef resets the counter of an inserted object:
    then every schedule keeps writers alone (fails to type-check when one of the two facts is false) *)
 Lemma exclusive_code : forall n sched,
-  exclusive (run release_decrements_under_lock acquire_resets_counter (init n) sched).
+  exclusive (run release_decrements_under_lock acquire_resets_counter release_uses_acquired_id (init n) sched).
 Proof.
-  change release_decrements_under_lock with true. change acquire_resets_counter with true. exact exclusive_fixed.
+  change release_decrements_under_lock with true. change acquire_resets_counter with true.
+  change release_uses_acquired_id with true. exact exclusive_fixed.
 Qed.
+
+(* ---------- Delete(ids...) on the directory ---------- *)
+Lemma disk_delete_structure_ok : disk_delete_stops_with_the_error = true.
+Proof. reflexivity. Qed.
